@@ -404,6 +404,20 @@ def R5_shared_checks(run):
             call = [x for x in subterms(at.term) if x[0] == "call" and x[1].rsplit("::", 1)[-1] in ("check_in_array_bounds", "check_is_out_of_bounds")][0]
             ok_args = any(is_param(strip(a), "tick_index") for a in call[2])
         guards[key] = guards.get(key, False) or (not (reach & some) and ok_args)
+    # the manual division scales the spacing by up to 64: formed in u16 that loses the high bits for spacings >= 1024 (splash pools)
+    narrow = []
+    pvl = prov_of(lk)
+    for bi, bb in enumerate(lk.blocks):
+        for si, st in enumerate(bb["s"]):
+            if st["k"] == "=" and st["rv"].get("bin") in ("Mul", "MulWithOverflow", "MulUnchecked", "Shl", "ShlUnchecked"):
+                a = pvl.operand(st["rv"]["a"], bi, si)
+                b = pvl.operand(st["rv"]["b"], bi, si)
+                if any(mentions(x, lambda s_: s_[0] == "param" and s_[1] == "tick_spacing") for x in (a, b)):
+                    ty = lk.locals[st["p"]["l"]]["t"].strip("()").split(",")[0].strip()
+                    if ty in ("u8", "u16", "i8", "i16"):
+                        narrow.append("%s at line %s" % (ty, st.get("l")))
+    run.check("R5", "lookup-scaling-width@pinocchio", not narrow, "check_is_usable_tick_and_get_offset scales tick_spacing in %s; 64 * spacing does not fit 16 bits for spacings >= 1024" % narrow,
+              loc=lk.loc(), detail="tick_spacing is widened before it is scaled")
     for key in ("in-array", "in-global-bounds", "on-grid"):
         run.check("R5", "lookup-guard:%s@pinocchio" % key, bool(some) and guards.get(key, False),
                   "check_is_usable_tick_and_get_offset can return Some(offset) for a tick that is not %s" % key, loc=lk.loc(),
